@@ -285,9 +285,8 @@ class Case:
             if V:
                 break
             # structural invariants of the tree after every operation that ends with an up-to-date tree
-            # (move_to_com shifts the particles behind the tree's back, possibly out of the box: only the boundary check and tree
-            #  update of the next step bring the tree up to date again)
-            if cfg["module"] != "none" and op == "step":
+            # (move_to_com runs the boundary check and the tree update itself)
+            if cfg["module"] != "none" and op in ("step", "com"):
                 if cfg["module"] == "treegrav":
                     cl.reb_simulation_update_tree(ctypes.byref(sim))
                     cl.reb_simulation_update_tree_gravity_data(ctypes.byref(sim))
